@@ -35,6 +35,7 @@ type ioArtefact struct {
 	Boundaries map[int]int
 	Tokens     [][]byte // sealed tokens inside a container, in stream order
 	Huge       bool     // > 64 KiB: positional faults are enumerated at every offset, the E3 search is skipped
+	Giant      bool     // >= 1 MiB: only the fault-free chunkings (whole, 4 KiB, 64 KiB, 1 MiB - 1) are compared
 }
 
 func viewString(tok any, c *cid.Cid) string {
@@ -63,6 +64,8 @@ var ioTokenSpecs = map[string]TokSpec{
 	"dlg3":    {Kind: "dlg", Alg: "ed25519", Key: 1, Opts: map[string]string{"nonce": "64", "sub": "other", "cmd": "/a/b"}},
 	"dlgbig":  {Kind: "dlg", Alg: "ed25519", Opts: map[string]string{"nonce": "64", "meta": "k=str-600"}},
 	"dlghuge": {Kind: "dlg", Alg: "ed25519", Key: 2, Opts: map[string]string{"nonce": "12", "meta": "k=bytes-70k"}},
+	"dlg1m":   {Kind: "dlg", Alg: "ed25519", Key: 1, Opts: map[string]string{"nonce": "12", "size:meta-bytes": "1048576"}},
+	"inv1m":   {Kind: "inv", Alg: "ed25519", Opts: map[string]string{"nonce": "12", "iat": "none", "size:arg-str": "1100000"}},
 	"dlg2":    {Kind: "dlg", Alg: "p256", Opts: map[string]string{"nonce": "12", "sub": "other"}},
 	"inv2":    {Kind: "inv", Alg: "secp256k1", Opts: map[string]string{"nonce": "12", "iat": "none", "prf": "3"}},
 }
@@ -156,6 +159,19 @@ func ioArtefacts() []ioArtefact {
 		r = append(r, ioArtefact{Name: n + "-sealed", Format: "sealed", Data: t.Sealed}.fix(kind))
 		r = append(r, ioArtefact{Name: n + "-json", Format: "json", Data: t.JSON}.fix(kind))
 	}
+	// tokens of 1 MiB and more (streaming decoders must not have a smaller size limit than the buffered ones)
+	for _, n := range []string{"dlg1m", "inv1m"} {
+		t := ioToken(n)
+		a := ioArtefact{Name: n + "-sealed", Format: "sealed", Data: t.Sealed}.fix(n[:3])
+		a.Giant = true
+		r = append(r, a)
+	}
+	g := buildContainer("car", []string{"dlg", "dlg1m"}).named("ctn-car-1m")
+	g.Giant = true
+	r = append(r, g)
+	g = buildContainer("cbor64", []string{"inv1m"}).named("ctn-cbor64-1m")
+	g.Giant = true
+	r = append(r, g)
 	// a CAR with one block above 64 KiB between two small ones (size thresholds in section readers)
 	r = append(r, buildContainer("car", []string{"dlg", "dlghuge"}).named("ctn-car-huge"), buildContainer("car64", []string{"dlghuge"}).named("ctn-car64-huge"), buildContainer("cbor", []string{"dlghuge", "inv"}).named("ctn-cbor-huge"))
 	for _, f := range []string{"cbor", "car", "cbor64", "car64"} {
@@ -350,7 +366,7 @@ func c18ReadSub() *engine.Sub {
 	}
 	return &engine.Sub{
 		Name: "readers",
-		Rule: "every streaming decoder on every matching artefact (2 sealed tokens, 2 DAG-JSON tokens, 10 containers): (1) chunk sizes {1,2,3,7,whole} x EOF {separate, with data}: result equals the buffered API's; (2) positional faults: an injected error after k delivered bytes for every k in [0,len] (returned alone, and returned together with the bytes up to k) and an early EOF for every k in [0,len) must yield an error (a CAR cut exactly at a block boundary yields exactly the blocks before it); (3) E3: deviation-bounded DFS over per-Read answers {all, 1 byte, half, last-bytes-with-EOF, early EOF, error, bytes-together-with-error}: fault-free schedules agree with the buffered API, faulty ones return an error; non-trivial = executions with at least one deviation or fault",
+		Rule: "every streaming decoder on every matching artefact (sealed and DAG-JSON tokens, containers; plus tokens and containers of 1 MiB and more, for which only the fault-free chunkings are compared): (1) chunk sizes {1,2,3,7,whole} x EOF {separate, with data}: result equals the buffered API's; (2) positional faults: an injected error after k delivered bytes for every k in [0,len] (returned alone, and returned together with the bytes up to k) and an early EOF for every k in [0,len) must yield an error (a CAR cut exactly at a block boundary yields exactly the blocks before it); (3) E3: deviation-bounded DFS over per-Read answers {all, 1 byte, half, last-bytes-with-EOF, early EOF, error, bytes-together-with-error}: fault-free schedules agree with the buffered API, faulty ones return an error; non-trivial = executions with at least one deviation or fault",
 		Bound: func(t string) string {
 			return fmt.Sprintf("E3 deviation bound %d (per artefact x API), all offsets for positional faults, 10 chunkings", tierN(t, 2, 3))
 		},
@@ -360,6 +376,16 @@ func c18ReadSub() *engine.Sub {
 			for _, a := range arts {
 				for _, api := range apis {
 					if !contains(api.Formats, a.Format) || !contains(api.Kinds, a.Kind) {
+						continue
+					}
+					if a.Giant {
+						for _, ch := range []int{0, 4096, 1 << 16, 1<<20 - 1} {
+							for _, ewd := range []bool{false, true} {
+								if !emit(&c18ReadCase{Art: a.Name, API: api.Name, Mode: "chunking", Chunk: ch, EOFWithData: ewd}) {
+									return
+								}
+							}
+						}
 						continue
 					}
 					for _, ch := range []int{1, 2, 3, 7, 0} {
@@ -726,7 +752,7 @@ func C18() *engine.Check {
 	return &engine.Check{
 		Property: "C18",
 		Level:    "model_checking",
-		Subs:     []*engine.Sub{c18ReadSub(), c18WriteSub()},
+		Subs:     []*engine.Sub{c18ReadSub(), c18WriteSub(), c18ConcSub(), concRaceSub("C18")},
 		Assumptions: []string{
 			"the harness reader never answers (0, nil); injected read faults are sticky (every later call fails too); write faults are injected sticky, short and transient",
 			"multi-token containers are compared as sets because the container writer iterates a Go map",
